@@ -370,3 +370,26 @@ func (d *Driver) ReadCount() int {
 	defer d.mu.Unlock()
 	return len(d.Reads)
 }
+
+// WaitWatchers gives the exchange watchers time to observe what already
+// happened: every successful removal of an outbound record is followed by the
+// close of an exchange, which a watcher goroutine has to pick up.
+func (d *Driver) WaitWatchers(timeout time.Duration) bool {
+	return d.W.WaitUntil(timeout, func() bool {
+		deletes := 0
+		for _, op := range d.W.Store.Ops {
+			if op.Op == "delete" && !op.Err && op.Key >= 0x8000 && op.Key <= 0xffff {
+				deletes++
+			}
+		}
+		closed := 0
+		d.mu.Lock()
+		for _, p := range d.Pubs {
+			if p.ClosedSeq != 0 {
+				closed++
+			}
+		}
+		d.mu.Unlock()
+		return closed >= deletes
+	})
+}
